@@ -991,6 +991,26 @@ impl ContinuityStore {
             (head_seq, last_message)
         };
 
+        // A handoff must carry a resolvable summary: refuse an artifact id that names no blob
+        // before anything is created.
+        if let Some(artifact_id) = summary_artifact_id.as_deref() {
+            let is_plain_name = !artifact_id.is_empty()
+                && artifact_id
+                    .chars()
+                    .all(|c| c.is_ascii_alphanumeric() || c == '-' || c == '_');
+            let blob = self
+                .workspace_root
+                .join(".rip")
+                .join("artifacts")
+                .join("blobs")
+                .join(artifact_id);
+            if !is_plain_name || !blob.is_file() {
+                return Err(format!(
+                    "handoff summary_artifact_id not found: {artifact_id}"
+                ));
+            }
+        }
+
         let workspace = workspace_key(&self.workspace_root);
         let thread_id = self.create_continuity(workspace, None, title, false)?;
 
